@@ -608,4 +608,217 @@ theorem attemptsX_reply_last (c : CfgX) (io : Script) (i k m : Nat) (last : Out)
     have := ih hl' (by simpa [preX] using h)
     simp [preX]; omega
 
+/-! ### write attempts = 1 + retry-worthy events -/
+
+/-- 1 when write #i fails -/
+def wf (io : Script) (i : Nat) : Nat := if io.wr i = .ok then 0 else 1
+
+theorem wrFaultsFrom_succ (io : Script) (i n : Nat) : wrFaultsFrom io i (n+1) = wf io i + wrFaultsFrom io (i+1) n := rfl
+
+def rcf (o : OutX) : Nat := if o.isRcFail then 1 else 0
+
+theorem rcf_le (o : OutX) : rcf o ≤ 1 := by unfold rcf; split <;> simp
+@[simp] theorem rcf_base (o : Out) : rcf (.base o) = 0 := rfl
+@[simp] theorem rcf_fail (m e) : rcf (.reconnectFailed m e) = 1 := rfl
+
+/-- the retry-worthy events of one attempt: exactly one when the loop goes on, and the read phase is `wait` again -/
+structure StepEvents (c : CfgX) (io : Script) (i k : Nat) (st : StepX) : Prop where
+  next : ∀ t k' m' l, st = .next t k' m' l →
+    wf io i + retryEventsFrom (boundsX c) io.rd .wait k (nReadsX t) = 1 ∧
+    phaseAfter (boundsX c) io.rd .wait k (nReadsX t) = .wait
+  fin : ∀ o t, st = .fin o t →
+    1 = min (1 + (wf io i + retryEventsFrom (boundsX c) io.rd .wait k (nReadsX t)) - rcf o) (c.maxRetry + 1 - i)
+
+theorem StepEvents.fault (c : CfgX) (io : Script) (i k k' m : Nat) (rc : Bool) (t : List OpX)
+    (h1 : wf io i + retryEventsFrom (boundsX c) io.rd .wait k (nReadsX t) = 1)
+    (h2 : phaseAfter (boundsX c) io.rd .wait k (nReadsX t) = .wait) :
+    StepEvents c io i k (faultX c io i k' m rc t) := by
+  rcases faultX_cases c io i k' m rc t with ⟨_, _, h'⟩ | ⟨_, _, _, h'⟩ | ⟨e, hi, _, _, h'⟩ | ⟨_, h'⟩ <;> rw [h']
+  · exact ⟨fun _ _ _ _ e => (by cases e; simpa using ⟨h1, h2⟩), fun _ _ e => (nomatch e)⟩
+  · exact ⟨fun _ _ _ _ e => (by cases e; simpa using ⟨h1, h2⟩), fun _ _ e => (nomatch e)⟩
+  · refine ⟨fun _ _ _ _ e => (nomatch e), fun _ _ e => ?_⟩
+    cases e; simp [h1]; omega
+  · exact ⟨fun _ _ _ _ e => (by cases e; exact ⟨h1, h2⟩), fun _ _ e => (nomatch e)⟩
+
+set_option linter.unusedSimpArgs false in
+theorem step_events (c : CfgX) (io : Script) (i k m : Nat) (last : Out) (hi : i ≤ c.maxRetry) :
+    StepEvents c io i k (attemptStepX c io i k m last) := by
+  have hB : boundsX c = bounds c.base := rfl
+  fun_cases attemptStepX c io i k m last
+  · rename_i hw
+    exact StepEvents.fault c io i k k m false _ (by simp [wf, hw, retryEventsFrom]) (by simp [phaseAfter])
+  · rename_i hw
+    exact StepEvents.fault c io i k k m true _ (by simp [wf, hw, retryEventsFrom]) (by simp [phaseAfter])
+  · rename_i hw hk
+    exact StepEvents.fault c io i k (k+1) m false _ (by simp [wf, hw, hk, retryEventsFrom, stepPhase])
+      (by simp [phaseAfter, stepPhase, hk])
+  · rename_i hw hk
+    exact StepEvents.fault c io i k (k+1) m true _ (by simp [wf, hw, hk, retryEventsFrom, stepPhase])
+      (by simp [phaseAfter, stepPhase, hk])
+  · rename_i hw hk
+    exact StepEvents.fault c io i k (k+1) m true _ (by simp [wf, hw, hk, retryEventsFrom, stepPhase])
+      (by simp [phaseAfter, stepPhase, hk])
+  · rename_i hw hk hl
+    refine ⟨fun _ _ _ _ e => (nomatch e), fun _ _ e => ?_⟩
+    cases e; simp [wf, hw, hk, retryEventsFrom, stepPhase]; omega
+  · rename_i hw hk hl
+    refine ⟨fun _ _ _ _ e => ?_, fun _ _ e => (nomatch e)⟩
+    cases e; simp [wf, hw, hk, retryEventsFrom, stepPhase, phaseAfter]
+  · rename_i hw hk
+    refine ⟨fun _ _ _ _ e => (nomatch e), fun _ _ e => ?_⟩
+    cases e; simp [wf, hw, hk, retryEventsFrom, stepPhase]; omega
+  · rename_i hw hk
+    refine ⟨fun _ _ _ _ e => (nomatch e), fun _ _ e => ?_⟩
+    cases e; simp [wf, hw, hk, retryEventsFrom, stepPhase]; omega
+  · rename_i hw hk
+    refine ⟨fun _ _ _ _ e => (nomatch e), fun _ _ e => ?_⟩
+    cases e; simp [wf, hw, hk, retryEventsFrom, stepPhase]; omega
+  · rename_i hw hk
+    refine ⟨fun _ _ _ _ e => (nomatch e), fun _ _ e => ?_⟩
+    cases e; simp [wf, hw, hk, retryEventsFrom, stepPhase]; omega
+  · rename_i hw hk o t hp
+    have pe := (pend_events c.base io.rd (k+1) 1 0).1 o (by rw [hp])
+    rw [hp] at pe; simp only at pe
+    refine ⟨fun _ _ _ _ e => (nomatch e), fun _ _ e => ?_⟩
+    cases e
+    simp only [nReadsX_cons, isRd_wrX, isRd_rdX, nReadsX_liftPend, if_true, Bool.false_eq_true, if_false, Nat.zero_add]
+    rw [Nat.add_comm 1 (nReads t)]
+    simp [wf, hw, hk, retryEventsFrom, stepPhase, hB, pe]; omega
+  · rename_i hw hk k' t hp
+    have pe := (pend_events c.base io.rd (k+1) 1 0).2 (by rw [hp]; simp)
+    rw [hp] at pe; simp only at pe
+    refine ⟨fun _ _ _ _ e => ?_, fun _ _ e => (nomatch e)⟩
+    cases e
+    simp only [nReadsX_cons, isRd_wrX, isRd_rdX, nReadsX_liftPend, if_true, Bool.false_eq_true, if_false, Nat.zero_add]
+    rw [Nat.add_comm 1 (nReads t)]
+    simp [wf, hw, hk, retryEventsFrom, phaseAfter, stepPhase, hB, pe.1, pe.2]
+  · rename_i hw hk k' t hp
+    have pe := (pend_events c.base io.rd (k+1) 1 0).2 (by rw [hp]; simp)
+    rw [hp] at pe; simp only at pe
+    refine StepEvents.fault c io i k _ m true _ ?_ ?_
+    · simp only [nReadsX_cons, isRd_wrX, isRd_rdX, nReadsX_liftPend, if_true, Bool.false_eq_true, if_false, Nat.zero_add]
+      rw [Nat.add_comm 1 (nReads t)]
+      simp [wf, hw, hk, retryEventsFrom, stepPhase, hB, pe.1]
+    · simp only [nReadsX_cons, isRd_wrX, isRd_rdX, nReadsX_liftPend, if_true, Bool.false_eq_true, if_false, Nat.zero_add]
+      rw [Nat.add_comm 1 (nReads t)]
+      simp [phaseAfter, stepPhase, hk, hB, pe.2]
+
+theorem attemptsX_writes_eq (c : CfgX) (io : Script) (i k m : Nat) (last : Out) (hi : i ≤ c.maxRetry) :
+    nWritesX (attemptsX c io i k m last).2 =
+      min (1 + (wrFaultsFrom io i (nWritesX (attemptsX c io i k m last).2) +
+                retryEventsFrom (boundsX c) io.rd .wait k (nReadsX (attemptsX c io i k m last).2))
+             - rcf (attemptsX c io i k m last).1)
+          (c.maxRetry + 1 - i) := by
+  fun_induction attemptsX c io i k m last with
+  | case1 => omega
+  | case2 i k m last _ o t hst =>
+    have se := step_events c io i k m last hi
+    have sf := (step_facts c io i k m last).writes
+    rw [hst] at se sf
+    simp only [StepX.ops] at sf
+    have := se.fin o t rfl
+    simp only [sf, wrFaultsFrom_succ, wrFaultsFrom, Nat.add_zero]
+    exact this
+  | case3 i k m last _ t k' m' l hst ih =>
+    have se := step_events c io i k m last hi
+    have sf := step_facts c io i k m last
+    rw [hst] at se sf
+    have hw := sf.writes
+    simp only [StepX.ops] at hw
+    obtain ⟨hk', _, _⟩ := sf.nextK t k' m' l rfl
+    obtain ⟨e1, e2⟩ := se.next t k' m' l rfl
+    simp only [preX, nWritesX_append, nReadsX_append, hw]
+    rw [Nat.add_comm 1 (nWritesX _), wrFaultsFrom_succ, retryEventsFrom_add, e2, ← hk']
+    have hr := rcf_le (attemptsX c io (i+1) k' m' l).1
+    by_cases hl : i < c.maxRetry
+    · have := ih (by omega)
+      omega
+    · rw [attemptsX_done c io (i+1) k' m' l (by omega)]
+      simp [wrFaultsFrom, retryEventsFrom]; omega
+
+/-! ### conservativity: without write / reconnect faults the widened loop is the old one -/
+
+theorem forget_liftPend_map (c : CfgX) (t : List Op) (h : ∀ op ∈ t, op.isRd = true) :
+    (t.map (liftPend c)).map OpX.forget = t := by
+  induction t with
+  | nil => rfl
+  | cons o t ih =>
+    simp only [List.map_cons]
+    rw [liftPend_forget c o (h o (by simp)), ih (fun op hop => h op (List.mem_cons_of_mem _ hop))]
+
+set_option linter.unusedSimpArgs false in
+set_option linter.unusedVariables false in
+theorem attemptsX_clean (c : CfgX) (io : Script) (hc : io.Clean) (i k m : Nat) (last : Out) :
+    (attemptsX c io i k m last).1 = .base (attempts c.base io.rd i k last).1 ∧
+    (attemptsX c io i k m last).2.map OpX.forget = (attempts c.base io.rd i k last).2 := by
+  generalize hs : io.rd = s
+  have hs' : ∀ k, io.rd k = s k := fun k => by rw [hs]
+  have hm : c.base.maxRetry = c.maxRetry := rfl
+  have hto : c.base.timeout = orZero c.timeout := rfl
+  have hlat : c.base.lat = c.lat := rfl
+  fun_induction attempts c.base s i k last generalizing m with
+  | case1 i k last h => rw [attemptsX_done c io i k m last (by omega)]; simp
+  | case11 i k _ hi hk o t hp =>
+    rw [attemptsX]
+    have hw := hc.1 i
+    have ar := pend_all_rd c.base s (k+1) 1 0
+    rw [hp] at ar
+    simp [hm ▸ hi, attemptStepX, hw, hs', hk, hs ▸ hp, OpX.forget, hto, hlat, forget_liftPend_map c t ar]
+  | case12 i k _ hi hk k' t hp ih =>
+    rw [attemptsX]
+    have hw := hc.1 i
+    have ar := pend_all_rd c.base s (k+1) 1 0
+    rw [hp] at ar
+    simp [hm ▸ hi, attemptStepX, hw, hs', hk, hs ▸ hp, OpX.forget, hto, hlat, forget_liftPend_map c t ar, preX, pre, ih]
+  | case13 i k _ hi hk k' t hp ih =>
+    rw [attemptsX]
+    have hw := hc.1 i; have hr := hc.2 m
+    have ar := pend_all_rd c.base s (k+1) 1 0
+    rw [hp] at ar
+    by_cases hl : i < c.maxRetry <;>
+      simp [hm ▸ hi, attemptStepX, hw, hr, hs', hk, hs ▸ hp, faultX, hl, hm, preX, pre, afterFault, ih, OpX.forget, hto, hlat,
+        tmoDur, waitX_eq, forget_liftPend_map c t ar]
+  | case5 i k _ hi hk hl =>
+    rw [attemptsX]
+    have hw := hc.1 i
+    simp [hm ▸ hi, attemptStepX, hw, hs', hk, hm ▸ hl, OpX.forget, hto, hlat]
+  | case6 i k _ hi hk hl ih =>
+    rw [attemptsX]
+    have hw := hc.1 i
+    simp [hm ▸ hi, attemptStepX, hw, hs', hk, hm ▸ hl, OpX.forget, hto, hlat, preX, pre, ih, waitX_eq]
+  | case2 i k _ hi hk ih =>
+    rw [attemptsX]
+    have hw := hc.1 i; have hr := hc.2 m
+    by_cases hl : i < c.maxRetry <;>
+      simp [hm ▸ hi, attemptStepX, hw, hr, hs', hk, faultX, hl, hm, preX, pre, afterFault, ih, OpX.forget, hto, hlat,
+        tmoDur, waitX_eq]
+  | case3 i k _ hi hk ih =>
+    rw [attemptsX]
+    have hw := hc.1 i; have hr := hc.2 m
+    by_cases hl : i < c.maxRetry <;>
+      simp [hm ▸ hi, attemptStepX, hw, hr, hs', hk, faultX, hl, hm, preX, pre, afterFault, ih, OpX.forget, hto, hlat,
+        tmoDur, waitX_eq]
+  | case4 i k _ hi hk ih =>
+    rw [attemptsX]
+    have hw := hc.1 i; have hr := hc.2 m
+    by_cases hl : i < c.maxRetry <;>
+      simp [hm ▸ hi, attemptStepX, hw, hr, hs', hk, faultX, hl, hm, preX, pre, afterFault, ih, OpX.forget, hto, hlat,
+        tmoDur, waitX_eq]
+  | case7 i k _ hi hk =>
+    rw [attemptsX]
+    have hw := hc.1 i
+    simp [hm ▸ hi, attemptStepX, hw, hs', hk, OpX.forget, hto, hlat]
+  | case8 i k _ hi hk =>
+    rw [attemptsX]
+    have hw := hc.1 i
+    simp [hm ▸ hi, attemptStepX, hw, hs', hk, OpX.forget, hto, hlat]
+  | case9 i k _ hi hk =>
+    rw [attemptsX]
+    have hw := hc.1 i
+    simp [hm ▸ hi, attemptStepX, hw, hs', hk, OpX.forget, hto, hlat]
+  | case10 i k _ hi hk =>
+    rw [attemptsX]
+    have hw := hc.1 i
+    simp [hm ▸ hi, attemptStepX, hw, hs', hk, OpX.forget, hto, hlat]
+
 end Gallia.ClientIO
